@@ -28,6 +28,7 @@ import (
 	"github.com/ethereum/go-ethereum/params"
 	"github.com/ethereum/go-ethereum/rlp"
 	"github.com/ethereum/go-ethereum/trie"
+	"github.com/holiman/uint256"
 
 	"verifsim/refmpt"
 	"verifsim/simcore"
@@ -49,7 +50,10 @@ type StatePlan struct {
 
 // TxPlan is one generated transaction.
 // K: 0 set slot (A contract, B slot selector, V value; V=0 clears), 1 transfer
-// (A sender, B target selector, V wei), 2 deploy a new setter contract (B tag).
+// (A sender, B target selector, V wei), 2 deploy a new setter contract (B tag), 3 EIP-7702
+// set-code transaction: authority A (a dedicated key that never sends itself)
+// delegates to contract B (B%7 == 0: clears the delegation). Two of them for one
+// authority in one block give that account two code changes in the block's access list.
 type TxPlan struct {
 	K int    `json:"k"`
 	A uint32 `json:"a"`
@@ -65,6 +69,7 @@ type BlockPlan struct {
 var setterCode = []byte{0x60, 0x20, 0x35, 0x60, 0x00, 0x35, 0x55, 0x00}
 
 const nSenders = 3
+const nAuthorities = 3
 
 type contract struct {
 	addr common.Address
@@ -77,6 +82,8 @@ type World struct {
 	gspec     *core.Genesis
 	keys      []*ecdsa.PrivateKey
 	senders   []common.Address
+	authKeys  []*ecdsa.PrivateKey
+	auths     []common.Address
 	plain     []common.Address
 	contracts []contract
 	blocks    []*types.Block // generated chain (block i+1 at index i)
@@ -84,6 +91,7 @@ type World struct {
 	chain     *core.BlockChain
 	db        ethdb.Database
 	imported  int // number of generated blocks imported into chain
+	multiCode []bool // block i+1 changes the code of one account more than once
 
 	refs     map[common.Hash]*RefState // by state root
 	keepRefs bool                      // build the reference of every imported block at import time (before it can go stale)
@@ -136,7 +144,7 @@ func randValue(r *simcore.Rand) common.Hash {
 func bigWei(gwei int64) *big.Int { return new(big.Int).Mul(big.NewInt(gwei), big.NewInt(1e9)) }
 
 // buildGenesis derives the genesis specification from the plan.
-func buildGenesis(sp *StatePlan) (*core.Genesis, []*ecdsa.PrivateKey, []common.Address, []common.Address, []contract) {
+func buildGenesis(sp *StatePlan) (*core.Genesis, []*ecdsa.PrivateKey, []common.Address, []common.Address, []contract, []*ecdsa.PrivateKey) {
 	r := simcore.NewRand(sp.Seed ^ 0x5eed)
 	cfg := amsterdamConfig()
 	alloc := types.GenesisAlloc{
@@ -162,6 +170,20 @@ func buildGenesis(sp *StatePlan) (*core.Genesis, []*ecdsa.PrivateKey, []common.A
 		a := crypto.PubkeyToAddress(k.PublicKey)
 		senders = append(senders, a)
 		alloc[a] = types.Account{Balance: new(big.Int).Mul(big.NewInt(1e18), big.NewInt(1_000_000))}
+	}
+	// authorities of EIP-7702 delegations: derived from their own generator so that
+	// the rest of the state does not depend on them
+	ar := simcore.NewRand(sp.Seed ^ 0xa0740)
+	var authKeys []*ecdsa.PrivateKey
+	for i := 0; i < nAuthorities; i++ {
+		kb := ar.Bytes(32)
+		kb[0] = 2
+		k, err := crypto.ToECDSA(kb)
+		if err != nil {
+			simcore.Harnessf("derive key: %v", err)
+		}
+		authKeys = append(authKeys, k)
+		alloc[crypto.PubkeyToAddress(k.PublicKey)] = types.Account{Balance: big.NewInt(int64(1000 + i))}
 	}
 	var plain []common.Address
 	for i := 0; i < sp.Plain; i++ {
@@ -224,7 +246,7 @@ func buildGenesis(sp *StatePlan) (*core.Genesis, []*ecdsa.PrivateKey, []common.A
 		addContract(0, false)
 	}
 	gspec := &core.Genesis{Config: cfg, Alloc: alloc, GasLimit: 60_000_000, BaseFee: big.NewInt(params.InitialBaseFee)}
-	return gspec, keys, senders, plain, contracts
+	return gspec, keys, senders, plain, contracts, authKeys
 }
 
 func newKeyFor(ci int, tag uint32) common.Hash {
@@ -238,9 +260,12 @@ func newKeyFor(ci int, tag uint32) common.Hash {
 // NewWorld builds the genesis, generates all blocks of the plan and starts Node A
 // with the first `initial` blocks imported. Must be called inside the bubble.
 func NewWorld(sp *StatePlan, blocks []BlockPlan, schemeA string, initial int) *World {
-	gspec, keys, senders, plain, contracts := buildGenesis(sp)
+	gspec, keys, senders, plain, contracts, authKeys := buildGenesis(sp)
 	w := &World{cfg: gspec.Config, gspec: gspec, keys: keys, senders: senders, plain: plain, contracts: contracts,
-		refs: map[common.Hash]*RefState{}}
+		refs: map[common.Hash]*RefState{}, authKeys: authKeys}
+	for _, k := range authKeys {
+		w.auths = append(w.auths, crypto.PubkeyToAddress(k.PublicKey))
+	}
 	engine := beacon.New(ethash.NewFaker())
 	signer := types.LatestSigner(gspec.Config)
 	deployed := 0
@@ -291,6 +316,20 @@ func NewWorld(sp *StatePlan, blocks []BlockPlan, schemeA string, initial int) *W
 				tx = types.NewTx(&types.LegacyTx{Nonce: nonce, Gas: 2_000_000, GasPrice: price, Data: init})
 				w.contracts = append(w.contracts, contract{addr: crypto.CreateAddress(from, nonce)})
 				deployed++
+			case 3:
+				ai := int(tp.A) % nAuthorities
+				var target common.Address
+				if tp.B%7 != 0 && len(w.contracts) > 0 {
+					target = w.contracts[int(tp.B)%len(w.contracts)].addr
+				}
+				auth, err := types.SignSetCode(w.authKeys[ai], types.SetCodeAuthorization{
+					ChainID: *uint256.MustFromBig(gspec.Config.ChainID), Address: target, Nonce: b.TxNonce(w.auths[ai])})
+				if err != nil {
+					simcore.Harnessf("sign authorization: %v", err)
+				}
+				tx = types.NewTx(&types.SetCodeTx{ChainID: uint256.MustFromBig(gspec.Config.ChainID), Nonce: b.TxNonce(from), To: from,
+					Value: new(uint256.Int), Gas: 500_000, GasFeeCap: uint256.MustFromBig(price), GasTipCap: uint256.NewInt(1),
+					AuthList: []types.SetCodeAuthorization{auth}})
 			default:
 				continue
 			}
@@ -302,6 +341,16 @@ func NewWorld(sp *StatePlan, blocks []BlockPlan, schemeA string, initial int) *W
 		}
 	})
 	w.blocks = gen
+	w.multiCode = make([]bool, len(gen))
+	for i, blk := range gen {
+		if al := blk.AccessList(); al != nil {
+			for _, acc := range *al {
+				if len(acc.CodeChanges) >= 2 {
+					w.multiCode[i] = true
+				}
+			}
+		}
+	}
 	cfg := &core.BlockChainConfig{
 		TrieCleanLimit: 0,
 		TrieDirtyLimit: 16,
